@@ -318,6 +318,52 @@ func adjacencyFamily() []*Ast {
 		cat(lit('a'), bareOpt("n", "", cat(grp(lit('b')), named("y", lit('c')), &Ast{Kind: ABackref, Name: "y"}))),
 		cat(grp(lit('a')), bareOpt("i", "", cat(grp(lit('b')), &Ast{Kind: ABackref, Ref: 1}))),
 	)
+	// an optional WIDE class (more than five characters and not one range, so the first-character analyses take their
+	// general path instead of the small leading-set search) in front of constructs whose first characters come from
+	// several branches: conditionals on a group or on a lookahead, alternations, optional items, backreferences
+	wideCap := func() *Ast { return rep(grp(&Ast{Kind: AClass, Items: []ClassItem{{Short: 'd'}}}), 0, 1, false) }
+	wideCls := func() *Ast {
+		return rep(&Ast{Kind: AClass, Items: []ClassItem{{Lo: 'p', Hi: 'r'}, {Lo: 'x', Hi: 'z'}, {Lo: '0', Hi: '1'}}}, 0, -1, false)
+	}
+	look := func(a *Ast) *Ast { return &Ast{Kind: ALook, Kids: []*Ast{a}} }
+	for _, w := range []func() *Ast{wideCap, wideCls} {
+		out = append(out,
+			cat(w(), alt(lit('b'), lit('c'))), cat(w(), rep(lit('b'), 0, 1, false), lit('c')),
+			cat(w(), &Ast{Kind: ACondExpr, Kids: []*Ast{look(lit('b')), cat(lit('b'), lit('b')), lit('c')}}),
+			cat(w(), &Ast{Kind: ACondExpr, Kids: []*Ast{look(lit('b')), lit('b')}}, lit('c')),
+			cat(w(), alt(cat(lit('b'), lit('c')), rep(lit('c'), 1, -1, true))),
+		)
+	}
+	out = append(out,
+		cat(wideCap(), &Ast{Kind: ACondRef, Ref: 1, Kids: []*Ast{lit('b'), lit('c')}}),
+		cat(wideCap(), &Ast{Kind: ACondRef, Ref: 1, Kids: []*Ast{lit('b')}}, lit('c')),
+		cat(wideCap(), &Ast{Kind: ACondRef, Ref: 1, Kids: []*Ast{rep(lit('b'), 0, -1, false), lit('c')}}, lit('c')),
+		cat(rep(grp(&Ast{Kind: AClass, Items: []ClassItem{{Short: 'w'}}}), 0, 1, true), &Ast{Kind: ACondRef, Ref: 1, Kids: []*Ast{lit('!'), lit('?')}}),
+		cat(wideCap(), &Ast{Kind: ABackref, Ref: 1}, lit('b')),
+	)
+	// atomic alternations of three or more literal branches sharing first or last characters (the regrouping of
+	// branches by their first character is right only where a branch is entered by its first character: not when
+	// matching right to left), bare, next to a literal and at the end of a lookbehind
+	lits := func(s string) *Ast {
+		var k []*Ast
+		for _, ch := range s {
+			k = append(k, lit(ch))
+		}
+		if len(k) == 1 {
+			return k[0]
+		}
+		return cat(k...)
+	}
+	for _, br := range [][]string{{"ax", "b", "ab"}, {"cx", "bc", "c"}, {"xa", "b", "ba"}, {"ab", "cb", "acb"}, {"a", "ba", "ca", "bca"}} {
+		mk := func() *Ast {
+			var k []*Ast
+			for _, b := range br {
+				k = append(k, lits(b))
+			}
+			return atomic(alt(k...))
+		}
+		out = append(out, mk(), cat(lit('c'), mk()), cat(mk(), lit('c')), cat(&Ast{Kind: ALook, Behind: true, Kids: []*Ast{cat(grp(alt(lits(br[0]), lits(br[1]), lits(br[2]))), lit('c'))}}, lit('a')))
+	}
 	// an anchor first or last next to a literal (the candidate-position filters of both scan directions key on them)
 	for _, an := range []string{"^", "$", `\A`, `\z`, `\Z`, `\b`, `\B`} {
 		a := func() *Ast { return &Ast{Kind: AAnchor, Name: an} }
